@@ -267,5 +267,7 @@ RULES = [
     ("C19.bp", rule_bp),
     ("C19.helpers", rule_helpers),
     ("C19.const", lambda c, r: pat.shared(__import__("sa.rules.c01", fromlist=["x"]).rule_const, "C19.const", lambda x: any(k in x["instance"] for k in ("read_lock", "read_unlock", "read_ongoing")) or x["status"] != "pass")(c, r)),   # nesting mask / count constants: a handler nests at any depth
+    ("C19.nest", lambda c, r: pat.shared(__import__("sa.rules.c01", fromlist=["x"]).rule_rlock, "C19.nest", lambda x: "every-path" in x["instance"] or "nested-increment" in x["instance"] or x["status"] != "pass")(c, r)),   # a handler's lock / unlock pair, nested inside the interrupted section or not, leaves the nesting count as it found it only if each call moves it by exactly one level
+    ("C19.nest", lambda c, r: pat.shared(__import__("sa.rules.c01", fromlist=["x"]).rule_runlock, "C19.nest", lambda x: "every-path" in x["instance"] or x["status"] != "pass")(c, r)),
 ]
 FLOORS = {}
